@@ -375,6 +375,8 @@ int World::exec(const Op &op) {
     switch (op.kind) {
         case OP_flush: case OP_reopen: case OP_kill: case OP_drop: case OP_clock: case OP_flush_fault: case OP_use_stale: case OP_keep:
             return exec_session(op);
+        case OP_ro_catalogue: case OP_mode_probe: case OP_version_cube:
+            return exec_special_op(*this, op);
         default: break;
     }
     if (!is_open) return 2;
